@@ -1,4 +1,5 @@
 """C12 — all events of a context live on one shard; unscoped reads cover all shards."""
+import concurrent.futures, json
 import vlib
 from vlib import hx
 from props import base
@@ -14,27 +15,34 @@ RULE = ("context id strings (empty, blank, ASCII, case / whitespace variants of 
         "accents, CJK, emoji, combining marks, RTL) x shard counts (0, 1, 2, 3, 7, 8, 16, 1000, 1024, 1025, 65535, 65536, "
         "70000, random) through the real ShardManager::get_shard, each case evaluated in two separate processes; "
         "engine histories: 1..5 real shards, 2..3 lifetimes of a real ShardManager on the same directories with "
-        "STOREs to recurring contexts, observed in the per-shard WAL directories. Non-trivial = the implementation "
-        "produced a shard index; distinct by (probe kind, context, shard count(s))")
+        "STOREs to recurring contexts, observed in the per-shard WAL directories; bursts of more than 4096 STOREs per "
+        "context inside one scripted millisecond (shard tag of every id); read histories on the real engine "
+        "(`vharn life`, one OS process per lifetime, 2..8 shards): families of context ids around one base id - "
+        "White_Space of ten kinds at either edge and inside, case variants, NFD/NFKC look-alikes, zero-width / soft-hyphen / "
+        "bidi characters, ids of several thousand characters, empty-looking ids - stored through STORE ... FOR \"<id>\", "
+        "then QUERY t, QUERY t FOR, REPLAY FOR and REPLAY t FOR for every id in memory, after FLUSH and after a restart. "
+        "Non-trivial = the implementation produced a shard index / observations; distinct by (probe kind, context, "
+        "shard count(s)) or the history")
 ASSUMPTIONS = [
     "std's DefaultHasher is SipHash-1-3 with zero keys and str::hash appends the byte 0xff: facts of the pinned toolchain (nightly-2025-10-14), modelled executably and differentially tested, not proved; stability across Rust releases is outside any model (DefaultHasher's algorithm is documented as unspecified)",
     "usize is 64 bits (x86_64 harness target)",
-    "engine level: STOREs are sent as ShardMessage::Store to get_shard(ctx) exactly as src/command/handlers/store.rs does (the handler itself, parsing and schema validation are not on this path); restarts are new ShardManager instances in one process, not new OS processes; reads are modelled (fan-out over all shards as in query/dispatch/streaming.rs, checked textually by the translator), not probed",
-    "per-shard result merge order is not modelled: fanout_union is a multiset statement",
+    "route_engine / route_burst send ShardMessage::Store to get_shard(ctx) exactly as src/command/handlers/store.rs does (restarts = new ShardManager instances in one process); the read histories go through parse_command + dispatch_command in `vharn life` processes, a restart is a killed and restarted process",
+    "read histories keep no STORE between a manual FLUSH and a restart (a kill there loses the STORE: C01's known finding OpenWalFilePruned); reads during a flush or a compaction are C03/C05's part",
+    "per-shard result merge order is not modelled: fanout_union is a multiset statement and reads are compared as sorted payload keys",
 ]
 TRUSTED = [
     "Coq 8.16.1 kernel + coqc; vm_compute for the known-answer vectors and the example history",
     "translator tools/gen_params.py + tools/params/p22_route.py (the body of get_shard, STORE routing through it and the all_shards() fan-out are matched textually)",
     "extraction: ExtrOcamlBasic only; ocaml/driver.ml, conv.ml, p_route.ml (parsing/printing, grouping per context)",
-    "correspondence harness /verif/harness (vharn fn route_*) built against /repo with --cfg sneldb_verif",
-    "python oracle: an independent SipHash-1-3 written from the reference description",
+    "correspondence harness /verif/harness (vharn fn route_*; vharn life + tools/engine.py for the read histories) built against /repo with --cfg sneldb_verif; clock hook verif_hooks::set_clock_script_ms for the bursts",
+    "python oracle: an independent SipHash-1-3 written from the reference description; set comparisons on the rows the engine returned",
 ]
 
 CLAIMED = True
 MANIFEST = {
- "level_text": "Theorems (unbounded, all histories of STOREs with arbitrary clocks and restarts, all shard counts): the routing hash is a 64-bit value and route = hash mod n < n; every stored event sits on shard route(ctx, n); a read FOR c fanned out to all shards is answered by that shard alone and returns every event of c in apply order; an unscoped read is a permutation of everything applied (no shard omitted); all ids of one context carry one shard tag (= route when n <= 1024). The SipHash-1-3 model is checked against reference vectors in Coq and run against the real ShardManager::get_shard on generated context strings and shard counts in separate processes, and against real multi-shard engine lifetimes (per-shard WAL directories).",
+ "level_text": "Theorems (unbounded, all histories of STOREs with arbitrary clocks and restarts, all shard counts): the routing hash is a 64-bit value and route = hash mod n < n; every stored event sits on shard route(ctx, n); a read FOR c fanned out to all shards is answered by that shard alone and returns every event of c in apply order; an unscoped read is a permutation of everything applied (no shard omitted); all ids of one context carry one shard tag (= route when n <= 1024). The SipHash-1-3 model is checked against reference vectors in Coq and run against the real ShardManager::get_shard on generated context strings and shard counts in separate processes, and against real multi-shard engine lifetimes (per-shard WAL directories, shard tags under bursts of more than 4096 ids per millisecond); on real engine processes every read scoped FOR a context id (whitespace-edged, case / normalisation variants, invisible characters, very long) is compared with the unscoped read and the model in memory, after FLUSH and after a restart.",
  "design_ref": "DESIGN.md §6 C12",
- "level_note": "Trusted: Coq kernel; tools/gen_params.py; ExtrOcamlBasic extraction + OCaml driver; the Rust harness; the python SipHash oracle. DefaultHasher = SipHash-1-3/zero keys is a fact of the pinned std, tested not proved; stability across Rust releases cannot be established. Reads are modelled, not probed."
+ "level_note": "Trusted: Coq kernel; tools/gen_params.py; ExtrOcamlBasic extraction + OCaml driver; the Rust harness; the python SipHash oracle. DefaultHasher = SipHash-1-3/zero keys is a fact of the pinned std, tested not proved; stability across Rust releases cannot be established. Merge order of per-shard results is not modelled (reads compared as sets)."
 }
 
 M64 = (1 << 64) - 1
@@ -147,30 +155,263 @@ def cases(rng, tier):
             groups.append([rng.choice(pool) for _ in range(rng.range(1, 8))])
         line = f"route_engine {n} " + " / ".join(",".join(hx(s) for s in g) for g in groups)
         add("engine", line, n=n, groups=groups, show=f"{n} shards, lifetimes {[len(g) for g in groups]}")
+    # more ids on one shard than a millisecond has sequence numbers, the clock standing still: the shard tag of
+    # the ids must stay the shard's
+    for _ in range(2 * mult if tier == "quick" else 12):
+        n = rng.choice([2, 3, 4, 8])
+        ctxs = []
+        while len(ctxs) < rng.choice([1, 1, 2]):
+            c = rng.choice(WORDS) + "-" + str(rng.below(1000))
+            if c not in ctxs:
+                ctxs.append(c)
+        count = (1 << 12) + rng.range(3, 120)
+        ms = 1_700_000_000_000 + rng.below(10 ** 11)
+        add("burst", f"route_burst {n} {ms} {count} " + " ".join(hx(c) for c in ctxs), n=n, ctxs=ctxs, count=count,
+            show=f"{count} STOREs per context {ctxs} on {n} shards inside one millisecond")
+    # scoped reads against the unscoped read on the real engine (real process lifetimes)
+    for _ in range(10 if tier == "quick" else 300):
+        out.append(gen_read_history(rng))
     return out
+
+
+# ------------------------------------------------------------------ engine read histories
+# Unicode White_Space (what Rust's str::trim removes)
+WHITE = [" ", "\t", "\u00a0", "\u3000", "\u2003", "\u2028", "\u0085", "\u000b", "\u1680", "\u202f"]
+WHITE_SET = set("\t\n\x0b\x0c\r \x85\xa0\u1680\u2000\u2001\u2002\u2003\u2004\u2005\u2006\u2007\u2008\u2009\u200a"
+                "\u2028\u2029\u202f\u205f\u3000")
+BASES = ["ctx-a", "user-1", "Klant-één", "order_77", "ａｂｃ", "tenant:9", "x", "Straße", "İstanbul", "a.b/c", "0", "-", "id=7;drop"]
+
+
+def rust_trim(s):
+    i, j = 0, len(s)
+    while i < j and s[i] in WHITE_SET:
+        i += 1
+    while j > i and s[j - 1] in WHITE_SET:
+        j -= 1
+    return s[i:j]
+
+
+def ctx_family(rng):
+    """Context ids around one base id: whitespace at the edges and inside, case, normalisation look-alikes,
+    invisible characters, a very long one, and ids that look empty."""
+    import unicodedata
+    b = rng.choice(BASES)
+    fam = [b]
+    for _ in range(rng.range(2, 4)):
+        w, w2 = rng.choice(WHITE), rng.choice(WHITE)
+        fam.append(rng.choice([w + b, b + w, w + b + w2, w + w2 + b, b + w + w2, w + b + w]))
+    extra = [b.upper(), b.lower(), b.swapcase(), b.replace("-", " "), b[:1] + " " + b[1:], b[:1] + "  " + b[1:],
+             b[:1] + "\t" + b[1:], unicodedata.normalize("NFD", b), unicodedata.normalize("NFKC", b),
+             "\u200b" + b, b + "\ufeff", b + "\u200d", "\u00ad" + b, b + "-" + "x" * rng.choice([300, 2000, 6000]),
+             b + "'", "(" + b + ")", b + "\\", "\u202e" + b]
+    for _ in range(rng.range(2, 5)):
+        fam.append(rng.choice(extra))
+    if rng.chance(1, 2):     # empty-looking ids: blank for str::trim (STORE must refuse them) or only invisible
+        fam.append(rng.choice([" ", "\t", "\u00a0", "\u3000 ", "\u200b", "\ufeff", "\u2800", "\u3164"]))
+    return list(dict.fromkeys(fam))
+
+
+def gen_read_history(rng):
+    n = rng.choice([2, 2, 3, 3, 4, 5, 6, 8])
+    cfg = dict(rng.choice([dict(fill_factor=2, event_per_zone=2), dict(fill_factor=3, event_per_zone=1),
+                           dict(fill_factor=1, event_per_zone=3), dict(fill_factor=2, event_per_zone=3)]), shards=n)
+    pool = ctx_family(rng)
+    if rng.chance(1, 3):
+        pool += [c for c in ctx_family(rng) if c not in pool][:3]
+    ops = []
+    def stores(k):
+        for _ in range(k):
+            ops.append(["S", rng.below(len(pool))])
+    for i in range(len(pool)):          # every id at least once
+        ops.append(["S", i])
+    stores(rng.range(4, 10))
+    ops.append(["O"])                                   # memtables + automatically flushed segments
+    # No STORE between a manual FLUSH and a restart: a kill after "FLUSH, STORE" loses the STORE (C01's known
+    # finding OpenWalFilePruned), which is not this property's business.
+    if rng.chance(1, 2):
+        ops += [["R"], ["O"]]                           # recovered from the WAL + segments
+        stores(rng.range(2, 6))
+        ops += [["F"], ["O"]]                           # everything in segments
+        stores(rng.range(1, 4)); ops.append(["O"])
+    else:
+        ops += [["F"], ["O"], ["R"], ["O"]]             # segments only, before and after a restart
+        stores(rng.range(2, 6)); ops.append(["O"])
+    return {"kind": "reads", "line": None, "cfg": cfg, "n": n, "pool": pool, "ops": ops,
+            "show": f"{n} shards, ids {[p[:24] for p in pool]}: " + " ".join(o[0] + (str(o[1]) if len(o) > 1 else "") for o in ops)}
+
+
+def _xs(rows):
+    out = []
+    for r in rows:
+        v = r.get("x") if isinstance(r, dict) else None
+        if v is None and isinstance(r, dict) and isinstance(r.get("payload"), dict):
+            v = r["payload"].get("x")
+        out.append(v)
+    return out
+
+
+def run_read_history(case):
+    """Runs one history on the real engine (tools/engine.py: one `vharn life` process per lifetime).
+    Result: {"acked":[(x, pool index)], "refused":[(x, pool index, status)], "obs":[{"all":[(ctx,x)], "q":{i:[x]},
+    "rp":{i:[x]}, "rpt":{i:[x]}, "foreign":[...]}], "line": model line, "err": ...}"""
+    import engine
+    e = engine.Engine(**case["cfg"])
+    res = {"acked": [], "refused": [], "obs": [], "line": None, "err": None}
+    toks = []
+    pool = case["pool"]
+    try:
+        e.start()
+        r = e.rows('DEFINE t FIELDS { "x": "int" }')
+        if r["status"] != 200:
+            raise RuntimeError(f"DEFINE answered {r['status']} {r.get('message')}")
+        x = 0
+        for op in case["ops"]:
+            if op[0] == "S":
+                c = pool[op[1]]
+                r = e.rows(f'STORE t FOR "{c}" PAYLOAD {{ "x": {x} }}')
+                if r["status"] == 200:
+                    res["acked"].append((x, op[1]))
+                    toks.append(f"S{x}:{hx(c)}")
+                else:
+                    res["refused"].append((x, op[1], r["status"]))
+                x += 1
+            elif op[0] == "F":
+                e.rows("FLUSH"); e.cmd("!flushwait"); toks.append("F")
+            elif op[0] == "R":
+                e.cmd("!flushwait"); e.cmd("!wal_drained 3000"); e.restart(); toks.append("R")
+            elif op[0] == "O":
+                e.cmd("!flushwait"); e.cmd("!wal_drained 3000")
+                o = {"q": {}, "rp": {}, "rpt": {}, "foreign": [], "status": []}
+                r = e.rows("QUERY t")
+                o["all"] = sorted((row.get("context_id"), xv) for row, xv in zip(r["rows"], _xs(r["rows"])))
+                if r["status"] != 200:
+                    o["status"].append(("QUERY t", r["status"]))
+                for i, c in enumerate(pool):
+                    for key, cmd in (("q", f'QUERY t FOR "{c}"'), ("rp", f'REPLAY FOR "{c}"'), ("rpt", f'REPLAY t FOR "{c}"')):
+                        r = e.rows(cmd)
+                        o[key][i] = sorted(v for v in _xs(r["rows"]) if v is not None)
+                        if r["status"] != 200 and not (rust_trim(c) == "" ):
+                            o["status"].append((cmd[:40], r["status"]))
+                        for row in r["rows"]:
+                            if row.get("context_id") != c:
+                                o["foreign"].append((cmd[:40], row.get("context_id")))
+                res["obs"].append(o)
+                toks.append("O")
+        res["line"] = f"route_hist {case['n']} P{','.join(hx(c) for c in pool)} " + " ".join(toks)
+    except Exception as ex:
+        res["err"] = f"{type(ex).__name__}: {ex}"
+    finally:
+        e.destroy()
+    return res
+
+
+def read_history_canon(case, res):
+    """The implementation's observations in the model's output format (scoped = the three scoped reads when they agree)."""
+    pool = case["pool"]
+    parts = []
+    for o in res["obs"]:
+        items = ["all=" + ",".join(str(xv) for _, xv in sorted(o["all"], key=lambda t: (t[1] is None, t[1])))]
+        for i, c in enumerate(pool):
+            q, rp, rpt = o["q"].get(i), o["rp"].get(i), o["rpt"].get(i)
+            if q == rp == rpt:
+                items.append(hx(c) + "=" + ",".join(map(str, q)))
+            else:
+                items.append(hx(c) + f"=DIFFER(query={q},replay={rp},replay_typed={rpt})")
+        parts.append(";".join(items))
+    return "H " + " | ".join(parts)
 
 
 def run_sides(cases_, model_ok):
     """Implementation side twice, in two different sets of fresh processes (the second run sees the
     cases in reverse order, so each case lands in another process and position); the second answer
     is kept on the case for the oracle."""
-    lines = [c["line"] for c in cases_]
-    impl = vlib.run_lines(vlib.VHARN, ["fn"], lines, timeout=900)
-    # second evaluation, separate processes: function-level cases only (engine cases are whole lifetimes already)
-    idx = [i for i, c in enumerate(cases_) if not c["line"].startswith("route_engine")]
-    rev = list(reversed(idx))
-    again = vlib.run_lines(vlib.VHARN, ["fn"], [lines[i] for i in rev], timeout=900, shards=7)
-    for i, a in zip(rev, again):
-        cases_[i]["_impl2"] = a
-    model = vlib.run_lines(vlib.MODEL_RUN, [], lines, timeout=900) if model_ok else [None] * len(lines)
+    fn_idx = [i for i, c in enumerate(cases_) if c.get("kind") != "reads"]
+    rd_idx = [i for i, c in enumerate(cases_) if c.get("kind") == "reads"]
+    lines = [cases_[i]["line"] for i in fn_idx]
+    impl = [None] * len(cases_)
+    # real-engine read histories run concurrently with the function-level probes
+    with concurrent.futures.ThreadPoolExecutor(max_workers=10) as ex:
+        fut = [ex.submit(run_read_history, cases_[i]) for i in rd_idx]
+        fn_impl = vlib.run_lines(vlib.VHARN, ["fn"], lines, timeout=900)
+        # second evaluation, separate processes: function-level cases only (engine cases are whole lifetimes already)
+        idx = [k for k, i in enumerate(fn_idx) if not lines[k].startswith(("route_engine", "route_burst"))]
+        rev = list(reversed(idx))
+        again = vlib.run_lines(vlib.VHARN, ["fn"], [lines[k] for k in rev], timeout=900, shards=7)
+        for k, a in zip(rev, again):
+            cases_[fn_idx[k]]["_impl2"] = a
+        rd_res = [f.result() for f in fut]
+    for k, i in enumerate(fn_idx):
+        impl[i] = fn_impl[k]
+    for i, r in zip(rd_idx, rd_res):
+        impl[i] = r
+    all_lines = [(cases_[i]["line"] if cases_[i].get("kind") != "reads" else (impl[i]["line"] or "route_hist 1 P O")) for i in range(len(cases_))]
+    model = vlib.run_lines(vlib.MODEL_RUN, [], all_lines, timeout=900) if model_ok else [None] * len(all_lines)
     return impl, model
 
 
 def same(c, impl, model):
+    if c.get("kind") == "reads":
+        return impl.get("err") is None and read_history_canon(c, impl) == model
     return impl == model
 
 
+def diffs(c, impl, model):
+    if c.get("kind") == "reads":
+        if impl.get("err"):
+            return ["harness: " + impl["err"]]
+        a, b = read_history_canon(c, impl).split(" | "), (model or "").split(" | ")
+        return [f"obs#{n}: implementation {x[:300]} / model {y[:300]}" for n, (x, y) in enumerate(zip(a, b)) if x != y][:4] or \
+               ([f"{len(a)} observations / model {len(b)}"] if len(a) != len(b) else [])
+    return [] if impl == model else [f"implementation {str(impl)[:300]} / model {str(model)[:300]}"]
+
+
+def oracle_reads(c, res):
+    """Direct oracle for an engine read history: every read scoped FOR a context returns exactly the acknowledged
+    events of that context - which is also what the unscoped read shows for it - and the unscoped read returns
+    every acknowledged event; in memory, after FLUSH, after a restart."""
+    if res.get("err"):
+        return f"the engine history could not be run: {res['err']}"
+    pool = c["pool"]
+    for x, i, st in res["refused"]:
+        if rust_trim(pool[i]) != "":
+            return f"STORE FOR {pool[i][:40]!r} was refused with status {st}"
+    acked_x = {x for x, _ in res["acked"]}
+    xctr, nobs, known = 0, 0, []      # known: what was acknowledged before the current observation
+    for op in c["ops"]:
+        if op[0] == "S":
+            if xctr in acked_x:
+                known.append((xctr, op[1]))
+            xctr += 1
+        elif op[0] == "O":
+            if nobs >= len(res["obs"]):
+                return "fewer observations than the history asks for"
+            o = res["obs"][nobs]
+            where = f"observation {nobs + 1} (after {' '.join(x[0] for x in c['ops'][:c['ops'].index(op) + 1] if x[0] != 'S') or 'stores'})"
+            nobs += 1
+            if o["status"]:
+                return f"{where}: {o['status'][0][0]!r} answered status {o['status'][0][1]}"
+            if o["foreign"]:
+                return f"{where}: {o['foreign'][0][0]!r} returned a row of context {str(o['foreign'][0][1])[:40]!r}"
+            want_all = sorted((pool[i], xv) for xv, i in known)
+            if sorted(o["all"], key=repr) != sorted(want_all, key=repr):
+                miss = sorted(set(want_all) - set(map(tuple, o["all"])), key=repr)
+                extra = sorted(set(map(tuple, o["all"])) - set(want_all), key=repr)
+                return f"{where}: the unscoped QUERY misses {miss[:4]} and has unexpected {extra[:4]} ({len(o['all'])} rows for {len(want_all)} acknowledged)"
+            for i, cx in enumerate(pool):
+                want = sorted(xv for xv, j in known if j == i)
+                unscoped = sorted(xv for cc, xv in o["all"] if cc == cx)
+                for key, name in (("q", "QUERY t FOR"), ("rp", "REPLAY FOR"), ("rpt", "REPLAY t FOR")):
+                    got = o[key].get(i)
+                    if got != want or got != unscoped:
+                        return (f"{where}: {name} {cx[:40]!r} returned x={got}; the context's acknowledged events are x={want} "
+                                f"and the unscoped QUERY shows x={unscoped} for it (owner shard {ref_hash(cx.encode('utf-8')) % c['n']}, "
+                                f"shard of the trimmed id {ref_hash(rust_trim(cx).encode('utf-8')) % c['n']})")
+    return None
+
+
 def oracle(c, impl):
+    if c.get("kind") == "reads":
+        return oracle_reads(c, impl)
     line = c["line"]
     if impl in (None, "ABORT") or impl.startswith(("UNKNOWN", "BADUTF8", "ENGINE_ERROR", "BAD_WAL")):
         return f"implementation answered {impl}"
@@ -196,6 +437,34 @@ def oracle(c, impl):
                 return f"shard {g} out of range for {n} shards"
             if g != h % n:
                 return f"shard {g} among {n} is not hash mod n = {h % n}"
+        return None
+    if line.startswith("route_burst"):
+        if not impl.startswith("B "):
+            return f"unexpected answer {impl}"
+        n = c["n"]
+        seen = {}
+        for item in impl[2:].split():
+            if item == "-":
+                continue
+            k, v = item.split("=")
+            dirs, tags, cnt, distinct = v.split("/")
+            seen[vlib.unhx(k).decode("utf-8")] = (dirs, tags, int(cnt), distinct)
+        for s_ in c["ctxs"]:
+            if s_ not in seen:
+                return f"context {s_!r} not found in any shard's WAL"
+            dirs, tags, got, distinct = seen[s_]
+            r = ref_hash(s_.encode("utf-8")) % n
+            if dirs != str(r):
+                return f"context {s_!r} is under shard(s) {dirs}, hash mod n = {r}"
+            if tags != str(r % 1024):
+                return (f"the ids of the {got} events of context {s_!r}, all applied by shard {r} inside one millisecond, carry the "
+                        f"shard tags {tags}: the tag does not identify the shard (expected {r % 1024} only)")
+            if got != c["count"]:
+                return f"context {s_!r}: {got} events in the WAL for {c['count']} STOREs"
+            if distinct != "distinct":
+                return f"context {s_!r}: two of its {got} events carry the same id"
+        if set(seen) - set(c["ctxs"]):
+            return f"unexpected contexts {sorted(set(seen) - set(c['ctxs']))[:3]}"
         return None
     if line.startswith("route_engine"):
         if not impl.startswith("E "):
@@ -236,6 +505,8 @@ def classify(c, impl):
 
 
 def nontrivial_key(c, impl):
-    if impl and impl[:2] in ("R ", "H ", "E "):
+    if c.get("kind") == "reads":
+        return ("reads", c["show"]) if isinstance(impl, dict) and impl.get("obs") and impl.get("acked") else None
+    if impl and impl[:2] in ("R ", "H ", "E ", "B "):
         return (c["kind"], c["line"])
     return None
